@@ -1,17 +1,31 @@
 (* C11 - The account password never reaches the log.   (PARTIAL: see DESIGN.md 6/C11)
    Every log call of the client, of Write and of Read is a symbolic record (level, kind) with kind Text (fixed wording),
    Tree ms (rendered with Message.String) or Dump bytes; a record is emitted iff its level is at most the logger's level,
-   and authenticate lowers and restores that level exactly as client.go does. reveals_dump / reveals_tree say when a dump
-   or a rendered tree gives the password away. The theorem holds for every environment, every log level below 99 and every
-   sequence of calls whose own requests are innocent - under four premises that are visible in the statement:
-     cipher_hides       the ciphertext does not contain the password          (an assumption about encryption)
-     auth_tree_masked   the rendered authentication request does not show it  (the password travels under a secret tag)
-     peer_no_echo(_tree) what the peer sends back does not contain it         (an assumption about the peer)
-   fmt/logrus rendering itself is not modelled; the rendered log text of the real client is scanned on every run. *)
+   and authenticate lowers and restores that level exactly as client.go does. For the password pw a dump reveals it when pw
+   is a contiguous sublist of the bytes; a rendered tree reveals it when pw occurs in a string or byte-array leaf that is
+   shown, i.e. not under a secret tag (theories/C11Proofs.v).
+   C11_no_secret holds for every environment, every log level below 99 and every sequence of calls whose own requests are
+   innocent - under premises that are visible in the statement and cannot be theorems:
+     cipher_hides        the ciphertext does not contain the password           (an assumption about encryption)
+     peer_no_echo(_tree)  what the peer sends back does not contain it           (an assumption about the peer)
+   The third premise, auth_tree_masked, is proved (C11_auth_tree_masked) as long as the user name does not contain the
+   password. fmt/logrus rendering itself is not modelled; the rendered log of the real client is scanned on every run. *)
 From Coq Require Import List NArith ZArith Bool.
 Import ListNotations.
-Require Import Client ClientLog.
+Require Import Codec Vocab Client ClientLog Session C11Proofs.
+Local Open Scope N_scope.
 
 Definition C11_no_secret := @ClientLog.C11_no_secret.
 Check C11_no_secret.
-Print Assumptions C11_no_secret.
+
+(* secret-tagged values are masked at every nesting depth: wrapped in any number of containers, a value under a secret
+   tag is never shown *)
+Theorem C11_mask_depth : forall pw t d v wrap, is_secret t = true ->
+  let nest := fold_right (fun tg inner => [Msg tg 14 (GMsgs inner)]) [Msg t d v] wrap in
+  ~ reveals_tree pw nest.
+Proof. exact C11Proofs.C11_mask_depth. Qed.
+
+Theorem C11_auth_tree_masked : forall user pw, ~ sublist pw user -> ~ reveals_tree pw (c_auth_req user pw).
+Proof. exact C11Proofs.C11_auth_tree_masked. Qed.
+
+Print Assumptions C11_no_secret. Print Assumptions C11_mask_depth. Print Assumptions C11_auth_tree_masked.
